@@ -41,6 +41,8 @@ func VerifC13(f []string) string {
 		return verifC13PartIter(f[1:])
 	case "cv":
 		return verifC13Coverage(f[1:])
+	case "sg":
+		return verifC13Stager(f[1:])
 	}
 	return "bad-op"
 }
@@ -536,4 +538,29 @@ func verifC13Coverage(f []string) string {
 		Blocks: []traceFragmentGuardBlock{{MinTimestamp: c13Int(f[4]), MaxTimestamp: c13Int(f[5]), BoundsKnown: true}},
 	}, traceFragmentSamplerActionDrop)
 	return fmt.Sprintf("%s R %d %s", head, d.Action, c13Reason(d.Reason))
+}
+
+// ---------------------------------------------------------------------------------------
+// staging: the per-trace bounds traceEvaluationStager.stage derives from the physical blocks it
+// is handed (any order of block timestamps), and the maturity decision taken on them.
+
+// sg <frontier> <tid>:<min>:<max>:<known> ...
+func verifC13Stager(f []string) string {
+	filter := &mergeFilter{maturityFrontier: c13Int(f[0]), filterImmature: true}
+	tes := &traceEvaluationStager{filter: filter, tracker: dropTracker{}}
+	defer tes.releaseBuffers()
+	for _, b := range f[1:] {
+		q := strings.Split(b, ":")
+		bp := generateBlockPointer()
+		bp.bm.traceID = c13Tid(c13Int(q[0]))
+		bp.bm.timestamps.min, bp.bm.timestamps.max, bp.bm.timestamps.known = c13Int(q[1]), c13Int(q[2]), q[3] == "1"
+		tes.stage(stagedTrace{traceID: bp.bm.traceID, slowBlock: bp})
+	}
+	var out []string
+	for i := range tes.groups {
+		gr := &tes.groups[i]
+		n, _ := strconv.Atoi(strings.TrimLeft(gr.traceID[1:], "0"))
+		out = append(out, fmt.Sprintf("%d[%d,%d,%s,%s]", n, gr.minTS, gr.maxTS, b01(gr.validMetadata), b01(stagedTraceGroupEligible(filter, gr))))
+	}
+	return fmt.Sprintf("%s ord=%s meta=%s", strings.Join(out, " "), b01(tes.invalidOrder), b01(tes.invalidMetadata))
 }
